@@ -988,6 +988,7 @@ def _minmax(name):
         xs = args if len(args) > 1 else it.iterate(args[0])
         if all(isinstance(x, (int, float)) for x in xs):
             return (min if name == "min" else max)(xs)
+        xs = [int(x) if isinstance(x, float) and x == int(x) else x for x in xs]  # A-time: integral float ticks
         r = it.to_int(xs[0])
         for x in xs[1:]:
             t = it.to_int(x)
